@@ -23,6 +23,9 @@ type Violation struct {
 	Expected  string `json:"expected,omitempty"`
 	Observed  string `json:"observed,omitempty"`
 	Count     int64  `json:"count,omitempty"` // how many cases shared this signature (merged)
+	// NoConfirm skips the 5x reproduction step: for sub-checks whose violation IS run-to-run
+	// nondeterminism of the code under test (fresh-process comparison), it cannot be required to reproduce.
+	NoConfirm bool `json:"-"`
 }
 
 // Result is what one worker reports to the supervisor.
@@ -197,7 +200,7 @@ func (w *Worker) RunCase(key string, fn func() *Violation) {
 		return
 	}
 	// confirm: same verdict 5 times
-	for i := 0; i < 5; i++ {
+	for i := 0; i < 5 && !v.NoConfirm; i++ {
 		v2, perr2 := w.safe(fn)
 		if perr2 != "" || v2 == nil || v2.Signature != v.Signature || v2.Observed != v.Observed {
 			w.Internal(fmt.Sprintf("HARNESS-NONDETERMINISM: violation %q of case %s did not reproduce on re-run %d", v.Signature, trunc(key, 300), i+1))
